@@ -147,7 +147,78 @@ Section Xsd.
       destruct (ch_class s) as [c'|]; [|reflexivity].
       apply (IH k Hk); [exact HX|exact HK].
   Qed.
+
+  (* ------------------------------------------------------------------ round 5: WHICH children a class knows.
+     "Parsing never drops unknown children (they surface as extensions)" was judged by the library's own
+     c_children (Spec.nd_b): a table that registers a child the element's schema type does not have - a child
+     table shared with a sibling class by a missing .copy(), say - makes that child "known" for the model and for
+     nd_b alike, and the stray member it is stored in is never serialised.  The schema files say which child
+     elements an element HAS: a child of the document whose name has no rank in the class's content model is
+     unknown, whatever the table says, and must be among the extension elements.
+     [A]: the registered children the schema files do not declare, reviewed by hand (xsd_extra_allowed). *)
+  Variable A : list (string * qname).
+
+  Definition allowed_extra (ci : class_info) (g : qname) : bool :=
+    existsb (fun e => String.eqb (fst e) (c_name ci) && qname_eqb (snd e) g) A.
+
+  (* root level: every child the schema does not give the element is an extension element of the object *)
+  Definition xsd_kept_b (c : N) (t : tree) (o : obj) : bool :=
+    match class_at T c with
+    | None => false
+    | Some ci =>
+        match xsd_model X c with
+        | [] => true                                   (* no content model: no oracle *)
+        | m => forallb (fun k => is_some (xsd_rank m (t_tag k)) || allowed_extra ci (t_tag k)
+                                 || existsb (ee_eqb (ee_of_tree k)) (o_ext o)) (t_kids t)
+        end
+    end.
+
+  (* the regenerated obligation: a class with a content model registers only children of that model *)
+  Definition xsd_known_class_ok (ci : class_info) (m : list (qname * nat)) : bool :=
+    forallb (fun s => is_some (xsd_rank m (ch_tag s)) || allowed_extra ci (ch_tag s)) (c_children ci).
+
+  Definition xsd_known_b : bool :=
+    forallb (fun cm => match class_at T (fst cm) with
+                       | Some ci => xsd_known_class_ok ci (snd cm)
+                       | None => false
+                       end) X.
+
+  Definition xsd_overregistered : list (string * qname) :=
+    flat_map (fun cm => match class_at T (fst cm) with
+                        | Some ci => map (fun s => (c_name ci, ch_tag s))
+                                         (filter (fun s => negb (is_some (xsd_rank (snd cm) (ch_tag s)) || allowed_extra ci (ch_tag s)))
+                                                 (c_children ci))
+                        | None => []
+                        end) X.
+
 End Xsd.
+
+(* Registered children that the shipped schema files do not have in the content model of the class - reviewed by
+   hand, one reason each (a mutation cannot add itself here: the list is not generated):
+   - ds:KeyInfo (and the two xenc key-info elements derived from it) accept xenc:EncryptedKey through the
+     schema's <any namespace="##other"> wildcard; pysaml2 registers it as a member (finding C12-F1 was about the
+     namespace it was registered under);
+   - xenc:AgreementMethod: the schema element is "KA-Nonce", the generated class registers "KA_Nonce" (the
+     schema-valid element is an extension element for the class; round trip unaffected);
+   - eidas RequestedAttribute: the schema's AttributeValue is in the eidas namespace, the class registers
+     saml:AttributeValue (what deployments send);
+   - soapenv:Fault: envelope.xsd declares faultcode / faultstring / faultactor / detail unqualified, the class
+     registers them in the SOAP namespace (noted in round 2). *)
+Definition XENC_NS : string := "http://www.w3.org/2001/04/xmlenc#".
+Definition SOAP_NS : string := "http://schemas.xmlsoap.org/soap/envelope/".
+Definition xsd_extra_allowed : list (string * qname) :=
+  [ ("saml2.xmldsig.KeyInfoType_", QN (Some XENC_NS) "EncryptedKey");
+    ("saml2.xmldsig.KeyInfo", QN (Some XENC_NS) "EncryptedKey");
+    ("saml2.xmlenc.OriginatorKeyInfo", QN (Some XENC_NS) "EncryptedKey");
+    ("saml2.xmlenc.RecipientKeyInfo", QN (Some XENC_NS) "EncryptedKey");
+    ("saml2.xmlenc.AgreementMethodType_", QN (Some XENC_NS) "KA_Nonce");
+    ("saml2.xmlenc.AgreementMethod", QN (Some XENC_NS) "KA_Nonce");
+    ("saml2.extension.requested_attributes.RequestedAttributeType_", QN (Some "urn:oasis:names:tc:SAML:2.0:assertion") "AttributeValue");
+    ("saml2.extension.requested_attributes.RequestedAttribute", QN (Some "urn:oasis:names:tc:SAML:2.0:assertion") "AttributeValue");
+    ("saml2.schema.soapenv.Fault_", QN (Some SOAP_NS) "faultcode"); ("saml2.schema.soapenv.Fault_", QN (Some SOAP_NS) "faultstring");
+    ("saml2.schema.soapenv.Fault_", QN (Some SOAP_NS) "faultactor"); ("saml2.schema.soapenv.Fault_", QN (Some SOAP_NS) "detail");
+    ("saml2.schema.soapenv.Fault", QN (Some SOAP_NS) "faultcode"); ("saml2.schema.soapenv.Fault", QN (Some SOAP_NS) "faultstring");
+    ("saml2.schema.soapenv.Fault", QN (Some SOAP_NS) "faultactor"); ("saml2.schema.soapenv.Fault", QN (Some SOAP_NS) "detail") ]%string.
 
 (* ---- the oracle has content of its own: a table that writes B before A while the schema says (A, B) is
    consistent in itself (ordered_b holds on what it writes) and is caught by the ranks *)
@@ -177,3 +248,24 @@ Proof. vm_compute. repeat split. Qed.
 Lemma xsd_swap_detected :
   exists T X c t, wf_table T = true /\ ordered_b T c t = true /\ xsd_ordered_b T X c t = false /\ xsd_consistent_b T X = false.
 Proof. exists (x_table ["b"; "a"]%string), x_xsd, 0%N, x_doc_ba. vm_compute. repeat split. Qed.
+
+(* a table that registers a child the schema does not give the element (the aliased child table) is consistent in
+   itself: the model parses the child into the member, nd_b is satisfied - and both the obligation and the check on
+   the document catch it *)
+Definition x_box_polluted : class_info :=
+  {| c_name := "Box"%string; c_tag := xq "Box"; c_kind := KPlain;
+     c_children := [ {| ch_tag := xq "A"; ch_member := "a"%string; ch_class := Some 1%N; ch_list := false |};
+                     {| ch_tag := xq "B"; ch_member := "b"%string; ch_class := Some 2%N; ch_list := true |};
+                     {| ch_tag := xq "S"; ch_member := "s"%string; ch_class := Some 3%N; ch_list := false |} ];
+     c_attributes := []; c_child_order := ["a"; "b"]%string;
+     c_cardinality := []; c_any := None; c_any_attribute := None; c_value_type := None; c_parse_defaults := [] |}.
+Definition x_table_polluted : table := [x_box_polluted; x_leaf "A" "A"; x_leaf "B" "B"; x_leaf "S" "S"].
+Definition x_doc_s : tree := Node (xq "Box") [] ""%string [x_leaf_t "A"; x_leaf_t "S"].
+
+Lemma xsd_pollution_detected :
+  nd_b x_table_polluted 0%N x_doc_s (harvest x_table_polluted 0%N x_doc_s) = true
+  /\ xsd_kept_b x_table_polluted x_xsd [] 0%N x_doc_s (harvest x_table_polluted 0%N x_doc_s) = false
+  /\ xsd_known_b x_table_polluted x_xsd [] = false
+  /\ xsd_kept_b (x_table ["a"; "b"]%string) x_xsd [] 0%N x_doc_s (harvest (x_table ["a"; "b"]%string) 0%N x_doc_s) = true
+  /\ xsd_known_b (x_table ["a"; "b"]%string) x_xsd [] = true.
+Proof. vm_compute. repeat split. Qed.
